@@ -103,7 +103,7 @@ theorem cfb_new_no_panic (file : Cfb.Bytes) (len : Nat) (m : String) : Cfb.new f
 theorem cfb_new_alloc_bound (file : Cfb.Bytes) (len : Nat) (c : Cfb.CfbSt) (rd : Cfb.Bytes)
     (h : Cfb.new file len = .ok (c, rd)) :
     c.fats.length * 4 ≤ c.sectors.data.length ∧ c.mini.data.length ≤ c.sectors.data.length ∧
-    c.sectors.data.length + rd.length ≤ file.length :=
+    c.miniFats.length * 4 ≤ c.sectors.data.length ∧ c.sectors.data.length + rd.length ≤ file.length :=
   Cfb.new_alloc_bound file len c rd h
 
 /-- the `len` argument of `Cfb::new` is a capacity hint only -/
